@@ -96,8 +96,8 @@ impl EmitExecutorMethod for MsgVariant<'_> {
         quote! {
             fn #variant_name(self, #(#parameters),*) -> Result<#sylvia ::types::ExecutorBuilder< #sylvia ::types::ReadyExecutorBuilderState >, #sylvia ::cw_std::StdError> {
                 Ok(#sylvia ::types::ExecutorBuilder::<#sylvia ::types::ReadyExecutorBuilderState>::new(
-                    self.contract().to_owned(),
-                    self.funds().to_owned(),
+                    #sylvia ::types::ExecutorBuilder::contract(&self).to_owned(),
+                    #sylvia ::types::ExecutorBuilder::funds(&self).to_owned(),
                     #sylvia ::cw_std::to_json_binary( & #api_path :: #variant_name (#(#fields_names),*) )?,
                 ))
             }
